@@ -27,11 +27,14 @@ func (P *Prog) buildPrelude() ([]*preludeEntry, map[string]*Sort) {
 	sorts := map[string]*Sort{}
 	for _, cf := range P.Files {
 		for _, line := range cf.SMT {
-			m := smtFunRe.FindStringSubmatch(line)
 			e := &preludeEntry{text: line, pkg: cf.Pkg}
-			if m != nil {
-				e.name = m[1]
-				sorts[e.name] = parseSortText(m[3])
+			parts := []string{}
+			if len(line) > 2 && line[0] == '(' {
+				parts = splitSexp(line[1 : len(line)-1])
+			}
+			if len(parts) >= 4 && (parts[0] == "define-fun" || parts[0] == "define-fun-rec" || parts[0] == "declare-fun") {
+				e.name = parts[1]
+				sorts[e.name] = parseSortText(parts[3])
 			} else if strings.HasPrefix(line, "(declare-const ") {
 				fs := strings.Fields(strings.TrimSuffix(strings.TrimPrefix(line, "(declare-const "), ")"))
 				if len(fs) >= 2 {
@@ -96,13 +99,44 @@ func (vc *VC) script(o *Obligation) string {
 		}
 	}
 	b.WriteString(vc.libPrelude())
+	// user prelude: declarations in dependency order, then the axioms whose functions are all in use
+	emitted := map[*preludeEntry]bool{}
+	byName := map[string]*preludeEntry{}
 	for _, e := range vc.prelude {
-		if e.name == "" || vc.smtUsed[e.name] {
-			if e.name == "" && !vc.smtUsed["*"] {
-				continue
+		if e.name != "" {
+			byName[e.name] = e
+		}
+	}
+	var emit func(e *preludeEntry)
+	emit = func(e *preludeEntry) {
+		if emitted[e] {
+			return
+		}
+		emitted[e] = true
+		for _, d := range e.deps {
+			if de := byName[d]; de != nil {
+				emit(de)
 			}
-			b.WriteString(e.text)
-			b.WriteByte('\n')
+		}
+		b.WriteString(e.text)
+		b.WriteByte('\n')
+	}
+	for _, e := range vc.prelude {
+		if e.name != "" && vc.smtUsed[e.name] {
+			emit(e)
+		}
+	}
+	for _, e := range vc.prelude {
+		if e.name == "" && len(e.deps) > 0 {
+			use := true
+			for _, d := range e.deps {
+				if !vc.smtUsed[d] {
+					use = false
+				}
+			}
+			if use {
+				emit(e)
+			}
 		}
 	}
 	for _, d := range vc.constDecls {
@@ -298,7 +332,11 @@ func solveAll(jobs []*solveJob, dir string, timeoutS int, needAgree bool, par in
 			script := j.vc.script(j.o)
 			j.o.Script = script
 			base := fmt.Sprintf("o%05d_%s", i, sanitizeFile(j.o.Name))
-			r := runSolvers(script, dir, base, timeoutS, needAgree, j.o.Expect)
+			to := timeoutS
+			if j.o.Expect == "sat" && to > 4 {
+				to = 4 // vacuity probes: a model is found fast or not at all
+			}
+			r := runSolvers(script, dir, base, to, needAgree && j.o.Expect != "sat", j.o.Expect)
 			j.o.Result, j.o.Solver, j.o.TimeS, j.o.Output = r.result, r.solver, r.secs, r.out
 			if r.result == "sat" && j.o.Expect == "unsat" {
 				j.o.Model = getModel(script, dir, base, r.solver, timeoutS)
